@@ -20,7 +20,7 @@ import (
 
 // TSAOutcome is the scripted behaviour of a timestamp authority for one request.
 type TSAOutcome struct {
-	Kind string // valid wrong-nonce wrong-imprint rejected waiting bad-signature key-mismatch trailing garbage http500 http503 stall reset noeku
+	Kind string // valid wrong-nonce wrong-imprint rejected waiting bad-signature forged-content key-mismatch trailing garbage http500 http503 stall reset noeku
 	// Skew is added to the virtual clock to form genTime / signing time.
 	Skew time.Duration
 }
@@ -181,6 +181,15 @@ func (t *TSA) RoundTrip(req *http.Request) (*http.Response, error) {
 		if out.Kind == "bad-signature" {
 			psd.Content.SignerInfos[0].EncryptedDigest[5] ^= 0x40
 		}
+		if out.Kind == "forged-content" {
+			// the signer block of a genuine token the authority issued for
+			// something else, around content that answers this request
+			other, err := t.mint(id, signer, pkcs7.OidData, append([]byte("another-signature-"), content...), when.Add(-17*time.Hour))
+			if err != nil {
+				panic(err)
+			}
+			psd.Content.SignerInfos = other.Content.SignerInfos
+		}
 		der, _ := psd.Marshal()
 		entry.SigValue = psd.Content.SignerInfos[0].EncryptedDigest
 		entry.Acceptable = out.Kind == "valid" || out.Kind == "noeku"
@@ -230,6 +239,25 @@ func (t *TSA) RoundTrip(req *http.Request) (*http.Response, error) {
 	}
 	if out.Kind == "bad-signature" {
 		psd.Content.SignerInfos[0].EncryptedDigest[5] ^= 0x40
+	}
+	if out.Kind == "forged-content" {
+		// the signer block of a genuine token the authority issued earlier for
+		// another imprint, around a TSTInfo that echoes this request
+		oinfo := info
+		hm := append([]byte(nil), treq.MessageImprint.HashedMessage...)
+		hm[len(hm)-1] ^= 0x80
+		oinfo.MessageImprint.HashedMessage = hm
+		oinfo.Nonce = new(big.Int).Add(treq.Nonce, big.NewInt(99))
+		oinfo.GenTime = genTimeRaw(when.Add(-17 * time.Hour))
+		oDER, err := asn1.Marshal(oinfo)
+		if err != nil {
+			panic(err)
+		}
+		other, err := t.mint(id, signer, pkcs9.OidTSTInfo, oDER, when.Add(-17*time.Hour))
+		if err != nil {
+			panic(err)
+		}
+		psd.Content.SignerInfos = other.Content.SignerInfos
 	}
 	resp := pkcs9.TimeStampResp{Status: pkcs9.PKIStatusInfo{Status: pkcs9.StatusGranted}, TimeStampToken: *psd}
 	der, err := asn1.Marshal(resp)
